@@ -252,7 +252,20 @@ def name_foreign(rnd, data):
     for i in range(count):
         pid, eid, lid, nid, ln, off = struct.unpack(">6H", data[6 + 12 * i:18 + 12 * i])
         recs.append([pid, eid, lid, nid, data[_so + off:_so + off + ln]])
-    uniq = sorted({r[4] for r in recs}, key=lambda s: (-len(s), rnd.random()))
+    # a minority of the tables is written as format 1: 1-3 language-tag records and name records whose
+    # langID (0x8000 + i) refers to them
+    langtags = []
+    if rnd.random() < 0.35:
+        langtags = [t.encode("utf-16-be") for t in rnd.sample(["sr-Latn", "de-1996", "zh-Hant-HK", "en-fonipa"], rnd.randrange(1, 4))]
+        donors = [r for r in recs if r[0] == 3] or recs
+        for i in range(len(langtags)):
+            d = rnd.choice(donors)
+            rec = [3, 1, 0x8000 + i, d[3], ("lt%d " % i).encode("utf-16-be") + (d[4] if d[0] == 3 else b"")]
+            if not any(r[:4] == rec[:4] for r in recs):
+                recs.append(rec)
+        recs.sort(key=lambda r: r[:4])
+        count = len(recs)
+    uniq = sorted({r[4] for r in recs} | set(langtags), key=lambda s: (-len(s), rnd.random()))
     storage = bytearray(b"\xAA" * rnd.choice([0, 1, 3]))
     where = {}
     shared = 0
@@ -265,11 +278,17 @@ def name_foreign(rnd, data):
             storage += s
         where[s] = at
     gap = rnd.choice([0, 2, 5, 12])           # bytes between the records and the string storage
-    out = struct.pack(">HHH", 0, count, 6 + 12 * count + gap)
+    extra = (2 + 4 * len(langtags)) if langtags else 0
+    out = struct.pack(">HHH", 1 if langtags else 0, count, 6 + 12 * count + extra + gap)
     for pid, eid, lid, nid, s in recs:
         out += struct.pack(">6H", pid, eid, lid, nid, len(s), where[s])
+    if langtags:
+        out += struct.pack(">H", len(langtags))
+        for t in langtags:
+            out += struct.pack(">HH", len(t), where[t])
     return out + b"\x55" * gap + bytes(storage), \
-        "name: %d records over %d stored strings, %d overlapping, %d-byte gap before storage" % (count, len(uniq), shared, gap)
+        "name format %d: %d records over %d stored strings, %d overlapping, %d-byte gap before storage, %d langTag records" \
+        % (1 if langtags else 0, count, len(uniq), shared, gap, len(langtags))
 
 
 # =============================================================== post
